@@ -1,6 +1,7 @@
 (* C18 — an execution restarted from a cache file reuses, not recomputes, cached results. *)
 From Coq Require Import List.
 From Tawazi Require Import Graph Select SelectFacts History HistoryFacts.
+From Tawazi Require Import Dataflow Args ArgsFacts Cache CacheFacts.
 Import ListNotations.
 
 (* whatever the selection of the restart: no node whose result is in the file is executed *)
@@ -35,3 +36,23 @@ Proof. exact (cache_deps_of_restart d i i2 D dbg nargs nargs' ok2 g). Qed.
 Print Assumptions C18_cache_deps_of_restart.
 (* that the value returned by the restart equals the caching run's is C15_den_precompute: the cached
    results are pre-computed denotations *)
+
+(* the results map a restart hands to the scheduler: every id of the file is pre-computed (hence pruned, never
+   executed), an argument the restart omits is read from the file (the caching run's value), an explicit argument
+   wins over the file *)
+Theorem C18_restart_map_has_cached (val : Type) (res cache : results val) (inputs : list nat) (args : list val) (r : results val) (n : nat) :
+  start_map val res cache inputs args = Some r -> has val cache n = true -> has val r n = true.
+Proof. exact (start_map_has_cached val res cache inputs args r n). Qed.
+Print Assumptions C18_restart_map_has_cached.
+
+Theorem C18_restart_omitted_argument_reads_file (val : Type) (res cache : results val) (inputs : list nat) (args : list val) (r : results val) (n : nat) (v : val) :
+  start_map val res cache inputs args = Some r ->
+  ~ In n (firstn (length args) inputs) -> lookup val cache n = Some v -> lookup val r n = Some v.
+Proof. exact (start_map_omitted_reads_cache val res cache inputs args r n v). Qed.
+Print Assumptions C18_restart_omitted_argument_reads_file.
+
+Theorem C18_restart_explicit_argument_wins (val : Type) (res cache : results val) (inputs : list nat) (args : list val) (r : results val) (k i : nat) (a : val) :
+  NoDup inputs -> start_map val res cache inputs args = Some r ->
+  nth_error inputs k = Some i -> nth_error args k = Some a -> lookup val r i = Some a.
+Proof. exact (start_map_argument_wins val res cache inputs args r k i a). Qed.
+Print Assumptions C18_restart_explicit_argument_wins.
